@@ -3,6 +3,8 @@
 ENGINES = [
     {"name": "E1", "path": "sa/model.py, sa/calls.py, sa/cfg.py", "serves_properties": ["C01", "C02", "C03", "C05", "C06", "C07", "C08", "C11", "C12", "C14", "C15", "C17", "C18", "C19", "C20"],
      "kind_free_text": "resolved program model: ast tables, mypy-as-library expression types, call-site resolution incl. operator dispatch, context-pruned reachability, statement CFG with dominators"},
+    {"name": "E2/E3", "path": "sa/effects.py", "serves_properties": ["C07", "C08", "C17", "C19", "C20"],
+     "kind_free_text": "effect analysis (shared mutable locations read/written, closed over the call graph) and exception-flow analysis (may-escape sets with handler matching)"},
     {"name": "E4", "path": "sa/absint.py, sa/specs.py, sa/poly.py, sa/algebra.py, sa/quantity_rules.py, sa/e4util.py", "serves_properties": ["C01", "C02", "C03", "C05", "C06", "C10", "C11", "C14", "C18"],
      "kind_free_text": "physical-value abstract interpretation: units-of-measure typing and polynomial normal forms over the library's own operator bodies"},
     {"name": "E6", "path": "sa/grammar.py", "serves_properties": ["C13", "C15", "C16", "C17"],
@@ -93,6 +95,20 @@ CHECKS = {
         "level_text": "m*(p*u) = (m*value(p))*u, (p*u)**n = p**n*u**n, same-base exponent arithmetic, identity neutrality and prefix stripping are decided as identities of normal forms for all operands; the declared prefixes are enumerated exhaustively.",
         "design_ref": "DESIGN.md section 4, C11",
         "level_note": E4_NOTE + " Not decided: the 1e-9 bound for mixed SI/IEC prefixes (floating point).",
+    },
+    "C07": {
+        "engine": "E1+E2/E3",
+        "technique": "context-pruned reachability from the conversion entry points over the mypy-resolved call graph; assert/__debug__ scan; explicit-raise closure with handler matching; CFG dominance of the visited-set guard; mypy diagnostics as a typed lint in the planner",
+        "level_text": "On the set of functions reachable from convert / in_unit / + / - / == / < (about 60, parser pruned away by call-site specialisation) there is no assert and no __debug__, so -O compiles identical code; the only exception classes that can escape through raise statements are ConversionNotFound (conversion entries) and none (comparison entries); handlers are exact; the path search recursion is bounded by a per-query visited set. Discharged after one fix: commit replacing four asserts.",
+        "design_ref": "DESIGN.md section 4, C07",
+        "level_note": "Trusted: mypy call resolution; assumption that Any-typed arguments conform to declared annotations. Not decided: implicit KeyError/IndexError from dict/list operations inside the planner's multiset heuristics (inventoried), and whether a possible conversion is found (C04).",
+    },
+    "C08": {
+        "engine": "E1+E2",
+        "technique": "effect analysis: transitive (context-pruned) read sets of memoised functions vs writers of module-level tables and registries, with CFG check that each writer invalidates after writing; who-may-write; alias-taint analysis for in-place mutation of memoised results; determinism lint",
+        "level_text": "History independence reduces to: every memo is over immutable inputs or is invalidated by every writer of what it reads; nothing but equate/translate writes the tables; queries keep no other state; cached objects are never mutated in place; no address-dependent iteration. All rules are armed over resolved structure and discharged after one fix: commit (cache invalidation).",
+        "design_ref": "DESIGN.md section 4, C08",
+        "level_note": "Trusted: mypy call resolution, functools.lru_cache semantics. Intern tables (_known) are exempt by kind (append-only, idempotent). Not decided: bit-identical floating-point results across processes.",
     },
     "C09": {
         "engine": "E5",
